@@ -24,8 +24,8 @@ func init() {
 func atomicAppend(c *Ctx, rule, short, fnName string) {
 	fn := c.P.Fn(short, fnName)
 	li := Locks(fn)
-	recv := fn.Params[0].Name()
-	par := fn.Params[1].Name()
+	recv := vname(fn.Params[0])
+	par := vname(fn.Params[1])
 	stores := findInstrs(fn, storePred(regexpQuote(recv+".packets")))
 	name := short + "." + fnName
 	if len(stores) == 0 {
@@ -211,7 +211,7 @@ func sendArgAllowed(fn *ssa.Function, args []ssa.Value) (bool, string) {
 	a := args[0]
 	// forwarded parameter (or a sub-slice of it, through any number of phis)
 	if par := sliceRootParam(a); par != nil {
-		return true, "forwards (a sub-slice of) its own parameter `" + par.Name() + "`"
+		return true, "forwards (a sub-slice of) its own parameter `" + vname(par) + "`"
 	}
 	// varargs array holding single packets: new [1]*Packet ; [0] = X ; slice
 	if sl, ok := a.(*ssa.Slice); ok {
